@@ -141,6 +141,40 @@ func k8(args []string) {
 		res.C15 = append(res.C15, k8Case{l.name, string(got) == ref, diffHint(ref, string(got))})
 	}
 
+	// an earlier run into the same destination that FAILED (a defer in a generator is rejected after another
+	// file of the package had already been processed): the next run, on other sources, must give what a
+	// fresh compile gives
+	{
+		v1a := "package h\n\nimport \"github.com/goghcrow/go-co\"\n\nfunc more() bool { return false }\n\nfunc Ones() co.Iter[int] {\n\tfor more() {\n\t\tco.Yield(1)\n\t}\n\treturn nil\n}\n"
+		v1z := "package h\n\nimport \"github.com/goghcrow/go-co\"\n\nfunc Bad() co.Iter[int] {\n\tdefer func() {}()\n\tco.Yield(1)\n\treturn nil\n}\n"
+		v2b := "package h\n\nimport \"github.com/goghcrow/go-co\"\n\nfunc Ones() co.Iter[int] {\n\tfor more() {\n\t\tco.Yield(1)\n\t}\n\treturn nil\n}\n\nfunc Pairs(n int) co.Iter[int] {\n\tfor i := 0; i < n; i++ {\n\t\tco.Yield(i)\n\t\tco.Yield(i)\n\t}\n\treturn nil\n}\n"
+		v2u := "package h\n\nvar calls int\n\nfunc more() bool { calls++; return calls < 3 }\n"
+		src := filepath.Join(mod, "c15", "hist", "src")
+		dst := filepath.Join(mod, "c15", "hist", "out")
+		mustWrite(filepath.Join(src, "h", "a.go"), v1a)
+		mustWrite(filepath.Join(src, "h", "z.go"), v1z)
+		_, err1 := compile(src, dst)
+		os.RemoveAll(filepath.Join(src, "h"))
+		mustWrite(filepath.Join(src, "h", "b.go"), v2b)
+		mustWrite(filepath.Join(src, "h", "util.go"), v2u)
+		out2, err2 := compile(src, dst)
+		fresh := filepath.Join(mod, "c15", "hist", "fresh")
+		compile(src, fresh)
+		got, _ := os.ReadFile(filepath.Join(dst, "h", "b.go"))
+		want, _ := os.ReadFile(filepath.Join(fresh, "h", "b.go"))
+		var extra []string
+		if ents, err := os.ReadDir(filepath.Join(dst, "h")); err == nil {
+			for _, e := range ents {
+				if e.Name() != "b.go" {
+					extra = append(extra, e.Name())
+				}
+			}
+		}
+		ok := err1 != nil && err2 == nil && len(want) > 0 && string(got) == string(want) && len(extra) == 0
+		res.C15 = append(res.C15, k8Case{"after-failed-run", ok, fmt.Sprintf("first run failed=%v second run ok=%v extra files=%v %s %s",
+			err1 != nil, err2 == nil, extra, diffHint(string(want), string(got)), tail(out2, 200))})
+	}
+
 	// several generator FUNCTION LITERALS in one file (their source comments are collected per file): the
 	// same source compiled five times in separate processes must give the same bytes
 	{
@@ -193,6 +227,8 @@ func k8(args []string) {
 			"pkg/tcp_conn_co.go":         coFile("pkg", "co", []string{"RangeBreakContinue"}, "T"),
 			"pkg/wire_codec/frame_co.go": coFile("wire_codec", "co", []string{"RangeStringBytes"}, "W"),
 			"pkg/wire_codec/doc.go":      "package wire_codec\n",
+			// two levels down, below a directory that holds no files itself
+			"pkg/internal/deep/deep_co.go": coFile("deep", "co", []string{"RangeInt"}, "D"),
 		}
 		for rel, c := range files {
 			mustWrite(filepath.Join(root, rel), c)
@@ -212,7 +248,7 @@ func k8(args []string) {
 		} else {
 			after := snapshot(root)
 			want := map[string]bool{"pkg/gen.go": true, "pkg/gen_test.go": true, "pkg/other.go": true, "pkg/sub/gen.go": true,
-				"pkg/tcp_conn.go": true, "pkg/wire_codec/frame.go": true}
+				"pkg/tcp_conn.go": true, "pkg/wire_codec/frame.go": true, "pkg/internal/deep/deep.go": true}
 			var created, changed []string
 			for p, c := range after {
 				if old, ok := before[p]; !ok {
